@@ -130,7 +130,7 @@ def job(args):
                 ('c[...] slice assignment', lambda bf: w.interp.store_subscript(w.interp.get_attr(bf, 'c'), (F_sl(),), newv, None))]
     faces = FACES[:2 * d]
     for mname, fn in mutators:
-        for face in (faces if tier != 'quick' else faces[:2] + faces[-1:]):
+        for face in faces:
             bc = w.boundary_conditions()
             _clean(bc)
             if _bc_dirty(w, bc):
